@@ -274,6 +274,16 @@ pub fn generate_with(rng: &mut Rng, tier: Tier, allow_null: bool) -> Plan {
             }
         }
     }
+    // a pair of nodes seconds apart at the very start and a last node tens of thousands of
+    // years later (ratios of times of 1e12 and more)
+    if n >= 3 && !large && rng.chance(if interp == "linear_zero_rate" { 0.03 } else { 0.003 }) {
+        nodes[1].ts = nodes[0].ts + rng.i64_in(1, 6);
+        let shift = rng.i64_in(40_000, 200_000) * 365 * DAY;
+        let first_far = nodes[2].ts.max(nodes[1].ts + 1);
+        for i in 2..n {
+            nodes[i].ts = nodes[i].ts.max(first_far + (i as i64 - 2)) + shift;
+        }
+    }
     // sometimes a user variable carries the very name a generated tag would have
     if kind > 0 && rng.chance(0.04) {
         let j = rng.below(n as u64) as usize;
@@ -1727,6 +1737,48 @@ pub fn shrink(plan: &Plan) -> Vec<Plan> {
     out
 }
 
+/// A float curve of `n` hourly nodes from 2000-01-01, switched 0 -> 1 -> 0 -> 2 -> 1 and looked
+/// up in its first and last intervals, at its last nodes and beyond both ends.
+fn big_curve(n: usize, salt: u64) -> Plan {
+    let mut rng = Rng::new(salt);
+    let t0 = 946_684_800i64;
+    let nodes: Vec<NodeSpec> = (0..n)
+        .map(|i| NodeSpec {
+            ts: t0 + i as i64 * 3_600,
+            num: Num::F(Fx::new(1.0 / (1.0 + 1e-6 * i as f64))),
+            ns: 0,
+        })
+        .collect();
+    let last = t0 + (n as i64 - 1) * 3_600;
+    let mut queries: Vec<i64> = vec![t0 - 1_800, t0, t0 + 1_800, t0 + 3_600, t0 + 5_400];
+    for k in 0..12i64 {
+        queries.push(last - k * 3_600);
+        queries.push(last - k * 3_600 - 1_800);
+    }
+    for _ in 0..10 {
+        queries.push(t0 + rng.i64_in(0, (n as i64 - 1) * 3_600));
+    }
+    queries.push(last + 1_800);
+    queries.push(last + 7_200);
+    Plan {
+        setup: Setup {
+            ctor: Ctor::Df,
+            nodes,
+            interp: if rng.chance(0.5) { "log_linear".into() } else { "linear".into() },
+            id: "big".into(),
+            index_base: Some(Fx::new(100.0)),
+            convention: 0,
+            modifier: 0,
+            share_vars: false,
+        },
+        history: History::Sequence(vec![1, 0, 2, 1]),
+        queries,
+        query_ns: vec![],
+        sibling: false,
+        silent_detours: false,
+    }
+}
+
 pub struct C12;
 
 impl Scenario for C12 {
@@ -1742,8 +1794,26 @@ impl Scenario for C12 {
         }
     }
     fn unit(seed: u64, tier: Tier, unit: u64, sink: &mut dyn FnMut(Plan) -> bool) {
+        // the size ladder: very long float curves (node counts that are no multiple of 8 or
+        // 64), switched through the orders and looked up at both ends
+        let stride = (Self::units(tier) / 17).max(1);
+        let ladder: &[usize] = match tier {
+            Tier::Quick => &[50_003],
+            Tier::Thorough => &[50_003, 65_537, 131_075],
+        };
+        if unit % stride == 7 && ((unit / stride) as usize) < ladder.len() {
+            sink(big_curve(ladder[(unit / stride) as usize], mix(seed, "C12-big", unit)));
+            return;
+        }
         let mut rng = Rng::new(mix(seed, "C12", unit));
         sink(generate_with(&mut rng, tier, true));
+    }
+    fn budget(plan: &Plan) -> u64 {
+        if plan.setup.nodes.len() > 5_000 {
+            30
+        } else {
+            1
+        }
     }
     fn execute(plan: &Plan, obs: &mut Obs) -> Result<(), Fail> {
         execute(plan, obs)
